@@ -278,6 +278,26 @@ def load_table():
         return json.load(fh)['functions']
 
 
+def canon_params(atoms):
+    """Parameter tokens (param:arg1.id, param:^arg0.id for a captured one)
+    are relabelled p0, p1, ... in the order of the atoms sorted with the
+    parameter identity masked: reordering a function's parameters, or
+    turning it into a closure over the same values, keeps the shape."""
+    import re
+    pat = re.compile(r'param:\^*arg\d+')
+    masked = sorted(atoms, key=lambda a: (pat.sub('param:#', a), a))
+    label = {}
+    out = []
+    for a in masked:
+        def rep(m):
+            k = m.group(0)
+            if k not in label:
+                label[k] = 'param:p%d' % len(label)
+            return label[k]
+        out.append(pat.sub(rep, a))
+    return sorted(out)
+
+
 def shape_rule(ctx, R, rule, qnames):
     """Obligation per function: its SQL shape equals the reviewed one."""
     frozen = load_table()
@@ -290,7 +310,8 @@ def shape_rule(ctx, R, rule, qnames):
         if want is None:
             from psa import model
             raise model.AnalysisError('no reviewed SQL shape for %s' % q)
-        want = sorted(want['atoms'])
+        want = canon_params(want['atoms'])
+        got = canon_params(got)
         R.ob(rule, 'sql-shape:%s' % q.split(':')[1], got == want,
              'join keys, filters, aggregates and grouping of the query are '
              'the reviewed ones', 'added %s; removed %s' % (
